@@ -26,7 +26,13 @@ use tokio_util::compat::{Compat, TokioAsyncReadCompatExt};
 pub(crate) type Sender = soketto::Sender<BufReader<BufWriter<Compat<TokioIo<Upgraded>>>>>;
 pub(crate) type Receiver = soketto::Receiver<BufReader<BufWriter<Compat<TokioIo<Upgraded>>>>>;
 
-pub use soketto::handshake::http::is_upgrade_request;
+/// Whether the request asks for a WebSocket connection: a `GET` request with the upgrade headers.
+///
+/// Upgrade headers on any other method do not make a handshake (RFC 6455, section 4.1); such a request is an
+/// ordinary HTTP request.
+pub fn is_upgrade_request<B>(request: &http::Request<B>) -> bool {
+	request.method() == http::Method::GET && soketto::handshake::http::is_upgrade_request(request)
+}
 
 enum Incoming {
 	Data(Vec<u8>),
